@@ -4,6 +4,7 @@ go 1.22.2
 
 require (
 	github.com/gorilla/websocket v1.5.1
+	github.com/grpc-ecosystem/grpc-gateway/v2 v2.19.1
 	github.com/renbou/grpcbridge v0.0.0
 	google.golang.org/grpc v1.63.2
 	google.golang.org/protobuf v1.33.0
@@ -11,7 +12,6 @@ require (
 
 require (
 	github.com/dolthub/maphash v0.1.0 // indirect
-	github.com/grpc-ecosystem/grpc-gateway/v2 v2.19.1 // indirect
 	github.com/klauspost/compress v1.17.5 // indirect
 	github.com/lxzan/gws v1.8.2 // indirect
 	golang.org/x/exp v0.0.0-20240409090435-93d18d7e34b8 // indirect
